@@ -33,10 +33,14 @@ pub static ARENA: LazyLock<RwLock<arena::Arena>> = LazyLock::new(|| RwLock::new(
 // ---------------------------------------------------------------------------
 // C13: the deadline on the step clock.  ticks <= COST_K * (n + m) + COST_C
 // Derivation in DESIGN.md section C13.
+//
+// K is four times the largest cost per byte the unchanged code reaches on the
+// adversarial families (10.1 with SSE2/AVX2; 49 without SIMD, where each call
+// of the portable prefilter may walk over up to 254 occurrences of the rare
+// byte before it can report a candidate, see inputs.rs "portable prefilter
+// worst case"), so that a change of the constant factor alone is not reported.
 pub const COST_K: u64 = 40;
-/// without SSE2 the portable prefilter is used, whose per-call cost is
-/// proportional to the pair offset (<= 254): a much larger constant
-pub const COST_K_NOSIMD: u64 = 56;
+pub const COST_K_NOSIMD: u64 = 200;
 pub const COST_C: u64 = 20_000;
 
 pub fn cost_k() -> u64 {
@@ -98,6 +102,7 @@ impl CostStats {
         if o.samples == 0 {
             return;
         }
+
         if self.samples == 0 || o.max_excess > self.max_excess {
             self.max_excess = o.max_excess;
         }
@@ -292,6 +297,8 @@ fn host_avx2() -> bool {
 
 static COST_MAX_LOG2: AtomicUsize = AtomicUsize::new(16);
 static LONG_HISTORY_LOG2: AtomicUsize = AtomicUsize::new(0);
+/// `--no-huge`: the multi-GiB episode of a run is generated as an ordinary one
+static NO_HUGE: std::sync::atomic::AtomicBool = std::sync::atomic::AtomicBool::new(false);
 /// `--also-model`: disagreement of a one-shot result with the naive model
 /// counts as a violation of the running profile too (used by the driver's
 /// isolation oracle for C15: a call must return what it returns in isolation)
@@ -314,6 +321,7 @@ pub fn target() -> gen::Target {
             scale_small: true,
             cost_max_log2: 10,
             long_history_log2: 0,
+            huge: false,
         };
     }
     gen::Target {
@@ -323,6 +331,7 @@ pub fn target() -> gen::Target {
         scale_small: miri,
         cost_max_log2: if miri { 11 } else { COST_MAX_LOG2.load(Ordering::Relaxed) as u32 },
         long_history_log2: if miri { 0 } else { LONG_HISTORY_LOG2.load(Ordering::Relaxed) as u32 },
+        huge: !miri && !NO_HUGE.load(Ordering::Relaxed),
     }
 }
 
@@ -966,6 +975,7 @@ fn cmd_info() -> i32 {
             "big_endian": cfg!(target_endian = "big"),
             "cost_k": COST_K,
             "cost_c": COST_C,
+            "cost_k_nosimd": COST_K_NOSIMD,
         })
     );
     0
@@ -976,6 +986,9 @@ fn main() {
     if args.is_empty() {
         eprintln!("usage: memsim run|replay|minimise|gen|info ...");
         std::process::exit(2);
+    }
+    if args.iter().any(|a| a == "--no-huge") {
+        NO_HUGE.store(true, Ordering::Relaxed);
     }
     if let Some(v) = arg(&args, "--long-history") {
         LONG_HISTORY_LOG2.store(v.parse().expect("--long-history"), Ordering::Relaxed);
